@@ -261,11 +261,18 @@ func (w *World) acquire(cs *connState) sut.Driver {
 	}
 	// a used object: re-initialise it the documented way - Reset(), or the init operation,
 	// which may come with other caller arrays than the object had before
-	if c.ResetBy == sut.ByInit {
-		d.Reinit(c.Cfg)
-	} else {
-		d.Reset(sut.ByReset)
-	}
+	func() {
+		defer func() {
+			if r := recover(); r != nil {
+				w.fail(cs, "C04", "panic", fmt.Sprintf("%s: Reset()/Init() of a used object panicked: %v | %s", c.Cfg.Kind, r, topFrames(string(debug.Stack()))))
+			}
+		}()
+		if c.ResetBy == sut.ByInit {
+			d.Reinit(c.Cfg)
+		} else {
+			d.Reset(sut.ByReset)
+		}
+	}()
 	if w.st != nil {
 		w.st.probe("pool-reuse")
 	}
@@ -316,6 +323,9 @@ func (w *World) pump(cs *connState) {
 				break // nothing unparsed
 			}
 			w.beginUnit(cs)
+			if w.v != nil {
+				return
+			}
 		} else if cs.calls == 0 && cs.start >= cs.L {
 			break // accumulating object, next header body not there yet
 		}
